@@ -1,0 +1,11 @@
+//go:build verif
+
+package master
+
+import "github.com/lindb/lindb/coordinator/discovery"
+
+// VerifProcessEvent feeds one discovery event synchronously into the master state manager
+// (verification harness only), instead of the asynchronous event channel.
+func VerifProcessEvent(m StateManager, event *discovery.Event) {
+	m.(*stateManager).processEvent(event)
+}
